@@ -33,7 +33,7 @@ Proof. intros Hk. eapply reach_step; [exact Hk | apply reach_refl]. Qed.
 
 (* transport along a parent frame *)
 Lemma Rank_pf s s' : pframe s s' -> Rank s -> Rank s'.
-Proof. intros PF HR a k Hk. rewrite (pf_skids _ _ PF) in Hk. apply HR; exact Hk. Qed.
+Proof. intros PF. apply rank_same_kids; [apply (pf_len _ _ PF) | intros b; apply (pf_skids _ _ PF)]. Qed.
 Lemma tree_shaped_pf s s' a : pframe s s' -> tree_shaped s a -> tree_shaped s' a.
 Proof.
   intros PF HT d Hd. apply (pframe_sym_reach _ _ _ _ PF) in Hd. destruct (HT d Hd) as [Hn Hx].
@@ -110,13 +110,13 @@ Section AttachSpec.
       { intros x Hx. apply in_adopted in Hx. destruct Hx as [d [f [i' Hin]]].
         destruct (K2 _ _ _ _ Hin) as [Hd [Hk _]]. apply edge_kid in Hk.
         eapply reach_trans; [apply K1; exact Hd | apply reach_kid; exact Hk]. }
-      assert (HE1' : forall x, In x (adopted E1) -> x < k).
+      assert (HE1' : forall x, In x (adopted E1) -> x <> k).
       { intros x Hx. apply in_adopted in Hx. destruct Hx as [d [f [i' Hin]]].
         destruct (K2 _ _ _ _ Hin) as [Hd [Hk _]]. apply edge_kid in Hk.
-        assert (Hle := reach_le _ _ _ HR (K1 d Hd)). apply HR in Hk. lia. }
+        intros ->. exact (rank_acyc _ _ _ HR Hk (K1 d Hd)). }
       assert (R12 : att_rel s s'' (D1 ++ []) (E1 ++ [(b, (k, fn, i))])).
       { eapply att_trans; [exact R1 | exact R2 |].
-        intros x Hx [<-|[]]. apply HE1' in Hx. unfold enode in Hx. simpl in Hx. lia. }
+        intros x Hx [<-|[]]. apply HE1' in Hx. unfold enode in Hx. simpl in Hx. apply Hx; reflexivity. }
       assert (PF12 := ar_pf _ _ _ _ R12).
       assert (HR'' : Rank s'') by (eapply Rank_pf; eassumption).
       assert (HP'' : forall x, detached s'' x = true -> P x).
@@ -182,22 +182,18 @@ Section AttachSpec.
       - intros [[k1 f1] i1] [[k2 f2] i2] x H1 H2 Hne R1 R2. apply edge_kid in H1. apply edge_kid in H2.
         exact (Hx k1 k2 x H1 H2 Hne R1 R2).
       - intros [[k f] i] Hin. apply edge_kid in Hin. unfold enode; simpl.
-        assert (Hlt := HR _ _ Hin).
-        assert (Hlb : live s b).
-        { destruct (Nat.lt_ge_cases b (List.length (heap s))) as [Hl|Hl]; [exact Hl|].
-          exfalso. unfold skids in Hin. rewrite dead_cellD in Hin by (unfold live; lia). destruct Hin. }
-        split; [unfold live in *; lia|]. split.
+        split; [eapply rank_kid_live; eassumption|]. split.
         + intros d Hd. apply HT. eapply reach_step; eassumption.
         + intros d d' R1 R2. apply HI; [eapply reach_step; eassumption | exact R2]. }
     destruct (attach_loop_spec _ b IHfuel _ _ _ HR HP LP El) as [D [E [R [L1 [L2 [L3 L4]]]]]].
     assert (PF := ar_pf _ _ _ _ R).
-    assert (Hb : forall d, In d D -> reach s b d /\ d < b).
+    assert (Hb : forall d, In d D -> reach s b d /\ d <> b).
     { intros d Hd. destruct (L1 d Hd) as [[[k f] i] [He Hr]]. apply edge_kid in He. unfold enode in Hr; simpl in Hr.
-      split; [eapply reach_step; eassumption | eapply reach_kid_lt; eassumption]. }
+      split; [eapply reach_step; eassumption | eapply reach_kid_ne; eassumption]. }
     assert (Eg2 : reg_get s2 (id_of s2 b) = None).
     { rewrite (pf_id _ _ PF), (ar_reg _ _ _ _ R); [exact Eg|].
       intros d Hd Ei. destruct (Hb d Hd) as [Hr Hlt].
-      apply (HI b d (reach_refl _ _) Hr); [lia | | congruence].
+      apply (HI b d (reach_refl _ _) Hr); [congruence | | congruence].
       apply HP. eapply att_detached_D; eassumption. }
     assert (R' : att_rel s (reg_set s2 (id_of s2 b) b) (D ++ [b]) (E ++ [])).
     { eapply att_trans; [exact R | apply att_reg; exact Eg2 | intros ? ? []]. }
